@@ -63,6 +63,8 @@ var c06Exprs = []string{
 	"/:z", "/a:b", "/a*c", "/ab:c/:x",
 	// escapes which request path normalisation would spell differently (never probed, only loaded, replaced and removed)
 	"/caf%c3%a9/:x", "/%7Eu",
+	// further second spellings (other wildcard names) of expressions of the pool
+	"/a/:w", "/:p/:q", "/b/:k/*rest", "/:z/b",
 	// the other two escapes at the beginning of a segment: a literal '*' and a literal backslash
 	`/\*s`, `/a/\\s/:x`,
 }
@@ -173,7 +175,23 @@ func genVersion(rng *rand.Rand, pool []string, src string, prev version) version
 	}
 	nMut := 1 + rng.IntN(3)
 	for k := 0; k < nMut; k++ {
-		switch rng.IntN(7) {
+		switch rng.IntN(8) {
+		case 7: // another spelling (wildcard names) for all rules of one expression
+			if len(v) > 0 {
+				sh := core.Shape(v[rng.IntN(len(v))].Expr)
+				var alts []string
+				for _, e := range c06Exprs {
+					if core.Shape(e) == sh {
+						alts = append(alts, e)
+					}
+				}
+				alt := alts[rng.IntN(len(alts))]
+				for i := range v {
+					if core.Shape(v[i].Expr) == sh {
+						v[i].Expr = alt
+					}
+				}
+			}
 		case 0: // unchanged
 		case 1: // change conditions of one rule
 			if len(v) > 0 {
